@@ -63,6 +63,7 @@ def _groups(tier, seed):
     for mode in ('', ' dfs'):
         for where in ('top', 'sub'):
             yield {'kind': 'archive', 'mode': mode, 'where': where}
+            yield {'kind': 'archive', 'mode': mode, 'where': where, 'damage': 'local'}
     # outputs larger than every internal buffer, consumer gone from the start or at a buffer boundary
     for fmt in (('json', 'html', 'csv') if tier == 'quick' else ('json', 'html', 'csv', 'list', 'tabs', 'lines')):
         for path in ('stream', 'ordered'):
@@ -358,6 +359,11 @@ def eval_group(env, group, tier):
             data = bytearray(b_.getvalue())
             cd = bytes(data).find(b'PK\x01\x02', bytes(data).find(b'PK\x01\x02') + 1)    # central header of m2
             data[cd + 8] |= 1                      # flagged as encrypted: the archive opens, this one member cannot be read
+            import struct as _st
+            loc = _st.unpack('<I', data[cd + 42:cd + 46])[0]
+            if group.get('damage') == 'local':
+                data[cd + 8] &= 0xfe
+                data[loc:loc + 2] = b'XX'             # the member's local header is no header: its description cannot be read either
             inner = {'a0': F(1), 'bad.zip': F(data=bytes(data)), 'z9': F(2), 'zd': D({'deep': F(3)})}
             tree = inner if group['where'] == 'top' else {'s': D(inner), 'other': F(1)}
             core.materialise(root, tree)
@@ -373,6 +379,13 @@ def eval_group(env, group, tier):
                 ok = not o.timeout and not o.panicked and o.rc in (0, 1) and sorted(rows) == want and len(set(members)) == len(members) <= 3 and \
                     {'[./%sbad.zip] m1' % ('' if group['where'] == 'top' else 's/'), '[./%sbad.zip] m3' % ('' if group['where'] == 'top' else 's/')} <= set(members)
                 emit(sub, ok, 'archive-member-unreadable', dict(o.brief(), query=q, missing=[x for x in want if x not in rows]))
+            sub = ['archive', 'count']
+            if only is None or sub == only:
+                q = 'count(*) from . archives' + group['mode'] + ' into list'
+                o = env.run([q], cwd=root)
+                n_ = int(o.rows()[0]) if o.rows() and o.rows()[0].isdigit() else -1
+                emit(sub, not o.panicked and o.rc in (0, 1) and len(want) + 2 <= n_ <= len(want) + 3, 'archive-member-unreadable',
+                     dict(o.brief(), query=q, expected='%d or %d' % (len(want) + 2, len(want) + 3)))
         elif kind == 'pipe-big':
             fmt, path = group['fmt'], group['path']
             for al in group['aligns']:
